@@ -278,6 +278,9 @@ func (k *Check) Finish(verifDir, tier string, seed int, wall float64, known []Kn
 	if len(k.Notes) > 0 {
 		cov["notes"] = k.Notes
 	}
+	if rn := k.C.Renames(); len(rn) > 0 {
+		cov["anchor_renames_tolerated"] = rn
+	}
 	ev := map[string]any{
 		"property_id": k.ID,
 		"tier":        tier,
